@@ -999,6 +999,9 @@ pub fn corpus() -> Vec<(&'static str, &'static str, Vec<Op>)> {
             t_signed(1, 2, vec![2], TS0 + 5, "n2i0", 2000), t_fin(TS0 + 5), Op::Mine { n: 5, ts: TS0 + 6 },
             t_signed(1, 0, vec![0], TS0 + 11, "n0i0", 2000), t_fin(TS0 + 11)]),
         ("mine_zero_on_empty_database", "c05", vec![Op::Mine { n: 0, ts: TS0 }]),
+        // block 1 was finalised with the hash brc20_mine will generate for height 5 (24 zero bytes + height + 1):
+        // brc20_mine(8) cannot mine that block - it must refuse BEFORE mining blocks 2..4
+        ("mine_meets_its_own_generated_hash", "c05", vec![t_init(), Op::Finalise { ts: TS0 + 1, hash: Hx::n32(6), tx_count: Idx::Auto }, Op::Mine { n: 8, ts: TS0 + 2 }, Op::Mine { n: 1, ts: TS0 + 3 }]),
         ("initialise_answers_error", "c05", vec![t_init(), Op::Mine { n: 1, ts: TS0 + 1 }]),
         // brc20_initialise for a height that does not exist yet, on a database that has a chain
         ("initialise_other_height", "c05", vec![t_init(), Op::Mine { n: 2, ts: TS0 + 1 }, Op::Initialise { hash: Hx::n32(0xabcdef), ts: TS0 + 3, height: 7 }, Op::Mine { n: 1, ts: TS0 + 4 }]),
